@@ -400,6 +400,18 @@ def gen_im(rng, n, depth=1):
     return ('conj' if r < 9 else 'disj', [gen_im(rng, n, depth - 1) for _ in range(2)])
 
 
+def same_size_variant(rng, t):
+    """a different text of the same size in bytes (one or two ASCII letters / blanks exchanged)"""
+    swap = {'a': 'b', 'b': 'a', 'A': 'B', 'B': 'A', ' ': '\t', '\t': ' ', 'x': '1', '1': 'x', '.': ',', ',': '.', '\n': ' '}
+    idx = [i for i, ch in enumerate(t) if ch in swap]
+    if not idx:
+        return t[:-1] + ('b' if t[-1] != 'b' else 'a') if ord(t[-1]) < 128 else t
+    cs = list(t)
+    for i in rng.sample(idx, min(len(idx), rng.randint(1, 2))):
+        cs[i] = swap[cs[i]]
+    return ''.join(cs)
+
+
 def gen_related_text(rng, t):
     """an expected text related to t: equal, extended, truncated (at line / char boundaries), or unrelated"""
     ls = lines_lf(t)
@@ -407,6 +419,8 @@ def gen_related_text(rng, t):
         c = rng.weighted([('eq', 30), ('ext', 30), ('trunc_line', 20), ('trunc_char', 10), ('nl', 10)])
     else:
         c = rng.weighted([('eq', 45), ('ext', 15), ('trunc_line', 12), ('trunc_char', 8), ('other', 10), ('nl', 10)])
+    if t and rng.chance(0.08):
+        return same_size_variant(rng, t)
     if c == 'eq':
         return t
     if c == 'ext':
@@ -469,9 +483,12 @@ class Gen:
         shorter one ending exactly at a line boundary of the longer one, on either side, in memory or on disk"""
         rng = self.rng
         kind = lambda p_file: 'file' if rng.chance(p_file) or not literal_ok(t) else 'str'
-        mode = rng.weighted([('generic', 4), ('actual_is_prefix', 3), ('expected_is_prefix', 3)])
+        mode = rng.weighted([('generic', 4), ('actual_is_prefix', 3), ('expected_is_prefix', 3), ('same_size', 3)])
         ls = lines_lf(t)
-        if mode == 'actual_is_prefix':
+        if mode == 'same_size' and t:
+            # two existing files of the same size (and, as all fixtures, the same modification time), compared in place
+            model, src = (kind(0.85), t), (kind(0.85), same_size_variant(rng, t) if rng.chance(0.8) else t)
+        elif mode == 'actual_is_prefix':
             actual = t if t.endswith('\n') or rng.chance(0.3) else t + '\n'
             expected = actual + rng.choice(['a', 'b\n', '\n', gen_text(rng, False) or 'x', 'ab ,.x' * rng.randint(1, 30) + '\n'])
             model, src = (kind(0.3), actual), (kind(0.7), expected)
@@ -652,6 +669,15 @@ def open_lm(lm):
 
 def open_t(T):
     return open_lm(T[1]) if T[0] == 'filter' else False  # replace ends in a STRING, a sequence in `)`
+
+
+FIXTURE_MTIME = 1600000000  # every fixture file gets this modification time (as after `cp -p`, an unpacked archive, ...)
+
+
+def write_fixture(path, contents):
+    with open(path, 'w', encoding='utf-8', newline='') as f:
+        f.write(contents)
+    os.utime(path, (FIXTURE_MTIME, FIXTURE_MTIME))
 
 
 class ImplRaised(Exception):
@@ -1046,6 +1072,7 @@ class Impl:
             d.mkdir()
             self.envs[mem] = impl.app_env(str(d), mem)
         self.n = 0
+        self.n_model = 0
         self.TestCaseDs, self.HomeDs, self.sdsm = TestCaseDs, HomeDs, sdsm
         self.sroot = self.tmp / 'sb'
         self.sroot.mkdir()
@@ -1065,27 +1092,29 @@ class Impl:
         home = self.tmp / ('h%d' % self.n)
         home.mkdir()
         for name, contents in files.items():
-            with open(home / name, 'w', encoding='utf-8', newline='') as f:
-                f.write(contents)
+            write_fixture(home / name, contents)
         return home
 
     def base_source(self, e, home, env):
         if e[0] == 'str':
             return impl.str_source(e[1], env)
-        p = home / ('model%d.txt' % self.n)
-        with open(p, 'w', encoding='utf-8', newline='') as f:
-            f.write(e[1])
+        self.n_model += 1
+        p = home / ('model%d.txt' % self.n_model)
+        write_fixture(p, e[1])
         return self.file_source.string_source_of_file__poorly_described(p, env.tmp_files_space)
 
-    def run_t(self, T_src, files, model, mem, expr=None):
+    def run_t(self, T_src, files, model, mem, expr=None, before=()):
         env = self.envs[mem]
         home = self.new_home(files)
         tcds = self.TestCaseDs(self.HomeDs(home, home), self.sds)
         tr = self.primitive(self.pst, T_src, env, tcds)
         if expr is not None:
             read_back(tr, Skel().t(expr), T_src)
-        source = self.base_source(model, home, env)
         try:
+            for b in before:  # the same primitive applied to other texts first: a transformer is a function of its input only
+                with tr.transform(self.base_source(b, home, env)).contents().as_lines as lines:
+                    list(lines)
+            source = self.base_source(model, home, env)
             out = tr.transform(source)
             ext = bool(out.contents().may_depend_on_external_resources)
             with out.contents().as_lines as lines:
@@ -1113,15 +1142,17 @@ class Impl:
         finally:
             shutil.rmtree(home, ignore_errors=True)
 
-    def run_m(self, m_src, files, model, mem, expr=None):
+    def run_m(self, m_src, files, model, mem, expr=None, before=()):
         env = self.envs[mem]
         home = self.new_home(files)
         tcds = self.TestCaseDs(self.HomeDs(home, home), self.sds)
         mt = self.primitive(self.psm, m_src, env, tcds)
         if expr is not None:
             read_back(mt, Skel().m(expr), m_src)
-        source = self.base_source(model, home, env)
         try:
+            for b in before:
+                mt.matches_w_trace(self.base_source(b, home, env))
+            source = self.base_source(model, home, env)
             v = bool(mt.matches_w_trace(source).value)
         except OSError:
             raise
@@ -1261,6 +1292,16 @@ def make_cases(rng, n_t, n_m, res):
         else:
             expr = g.trans(text, depth) if kind == 'T' else g.smatcher(text, depth)
         cases.append({'kind': kind, 'expr': expr, 'model': model, 'mem': mem})
+        # ONE primitive applied to SEVERAL texts in sequence (what `every file : contents ...` does): each application is
+        # a case of its own, carrying the texts the primitive has seen before.  Always when `filter -line-nums` is
+        # involved (its implementation keeps per-application state), else for one case in eight.
+        if 'linenums' in kinds_of(expr, set()) or rng.chance(0.12):
+            before = [model]
+            for _ in range(rng.randint(1, 2)):
+                t2 = gen_text(rng, long_ok=False, theme=g.theme if rng.chance(0.5) else None)
+                m2 = ('file', t2) if rng.chance(0.55) or not literal_ok(t2) else ('str', t2)
+                cases.append({'kind': kind, 'expr': expr, 'model': m2, 'mem': mem, 'before': list(before)})
+                before.append(m2)
     return cases
 
 
@@ -1269,12 +1310,12 @@ def observe(im, case):
     if case['kind'] == 'T':
         src = rnd.t(case['expr'], top=True)
         case['src'], case['files'] = src, rnd.files
-        ls, ext, fext = im.run_t(src, rnd.files, case['model'], case['mem'], case['expr'])
+        ls, ext, fext = im.run_t(src, rnd.files, case['model'], case['mem'], case['expr'], case.get('before', ()))
         case['obs'] = {'lines': ls, 'ext': ext, 'fext': fext}
     else:
         src = rnd.m(case['expr'], top=True)
         case['src'], case['files'] = src, rnd.files
-        case['obs'] = {'verdict': im.run_m(src, rnd.files, case['model'], case['mem'], case['expr'])}
+        case['obs'] = {'verdict': im.run_m(src, rnd.files, case['model'], case['mem'], case['expr'], case.get('before', ()))}
 
 
 def coq_case(case):
